@@ -17,6 +17,7 @@
 -/
 import EvalFilter.Model.Parser
 import EvalFilter.Props.Tables
+import EvalFilter.Proofs.Pratt
 
 namespace EvalFilter.Props.C12
 open EvalFilter EvalFilter.Parser
@@ -215,5 +216,43 @@ theorem C12_parentheses_transparent (fuel : Nat) (s : PState) :
   cases parseExpression fuel LOWEST s.next with
   | none => rfl
   | some p => cases p; rfl
+
+/-! ### the general statement: trees of any size -/
+
+/-- every one of the 18 binary operators is an operator of the round-trip theorem -/
+theorem C12_binOps_are_binary : ∀ o ∈ binOps, Bin o := by
+  intro o ho
+  simp only [binOps, List.mem_cons, List.not_mem_nil, or_false] at ho
+  rcases ho with rfl | rfl | rfl | rfl | rfl | rfl | rfl | rfl | rfl | rfl | rfl | rfl | rfl | rfl | rfl | rfl | rfl | rfl <;>
+    exact ⟨rfl, by decide⟩
+
+/-- **Round trip.**  For every operator tree `t` over identifiers and binary operators - of any size and
+    shape (nesting below the parser's guard of 2000) - printed by `T.pr` with a pair of parentheses
+    exactly around a left operand of lower level and around a right operand of lower or equal level,
+    `return <that text>;` parses to exactly `t`.  Hence: higher level binds tighter, equal levels group
+    left to right, parentheses override, for expressions of unbounded size. -/
+theorem C12_round_trip (t : T) (hwf : t.wf) (hn : t.nest ≤ maxNesting) :
+    parse (retTok :: t.pr ++ [semiTok, Token.eof]) = some [.ret t.toExpr] :=
+  pratt_round_trip t hwf hn
+
+/-- so the printed form determines the tree: the documented rules are unambiguous -/
+theorem C12_grouping_unambiguous (t1 t2 : T) (h1 : t1.wf) (h2 : t2.wf) (n1 : t1.nest ≤ maxNesting)
+    (n2 : t2.nest ≤ maxNesting) (h : t1.pr = t2.pr) : t1.toExpr = t2.toExpr := by
+  have a := C12_round_trip t1 h1 n1
+  have b := C12_round_trip t2 h2 n2
+  rw [h] at a
+  rw [a] at b
+  simpa using b
+
+/-- non-vacuity: a concrete tree, its minimal-parentheses text, and the theorem's hypotheses -/
+theorem C12_round_trip_example :
+    let plus : Token := ⟨.PLUS, ['+']⟩
+    let star : Token := ⟨.ASTERISK, ['*']⟩
+    let minus : Token := ⟨.MINUS, ['-']⟩
+    let t : T := .node star (.node plus (.leaf ['a']) (.leaf ['b'])) (.node minus (.leaf ['c']) (.node minus (.leaf ['d']) (.leaf ['e'])))
+    -- (a + b) * (c - (d - e))
+    t.pr.map (·.lit) = [['('], ['a'], ['+'], ['b'], [')'], ['*'], ['('], ['c'], ['-'], ['('], ['d'], ['-'], ['e'], [')'], [')']] ∧
+    t.nest ≤ maxNesting := by
+  decide
 
 end EvalFilter.Props.C12
